@@ -44,6 +44,11 @@ func IMMSites() []Site {
 		{Tag: "mut compound p.M+=", Stmt: "p.M += 1", Subj: SubjTMut, Codes: i2},
 		{Tag: "mut incdec x.M++", Stmt: "x.M++", Subj: SubjTMut, Codes: i3},
 		{Tag: "mut index x.Ms[0]", Stmt: "x.Ms[0] = 1", Subj: SubjTMut, Codes: i4},
+		// second annotated type: same field names, opposite @mutable marking, other constructor
+		{Tag: "T2 assign x2.M", Stmt: "x2.M = 1", Subj: SubjT2, Codes: i1, Core: true},
+		{Tag: "T2 incdec x2.M++", Stmt: "x2.M++", Subj: SubjT2, Codes: i3},
+		{Tag: "T2 mut assign x2.F", Stmt: "x2.F = 1", Subj: SubjT2Mut, Codes: i1, Core: true},
+		{Tag: "T2 mut compound x2.F+=", Stmt: "x2.F += 1", Subj: SubjT2Mut, Codes: i2},
 		// twin
 		{Tag: "twin assign tw.F", Stmt: "tw.F = 1", Subj: SubjTwin, Core: true},
 		{Tag: "twin incdec tp.F++", Stmt: "tp.F++", Subj: SubjTwin},
@@ -90,6 +95,10 @@ func CTORSites() []Site {
 		{Tag: "new arg use(new(T))", Stmt: "use(new({T}))", Subj: SubjT, Codes: c2},
 		{Tag: "var v T", Stmt: "var $v {T}; _ = $v", Subj: SubjT, Codes: c3, Core: true, PkgLevel: "var $g {T}"},
 		{Tag: "var v,w T", Stmt: "var $v, w$v {T}; _, _ = $v, w$v", Subj: SubjT, Codes: []string{"CTOR03", "CTOR03"}, PkgLevel: "var $g, H$g {T}"},
+		// second constructor-restricted type (constructor NewT2, never one of the generated enclosers)
+		{Tag: "T2 lit T2{}", Stmt: "_ = {T2}{}", Subj: SubjT2, Codes: c1, Core: true, PkgLevel: "var $g = {T2}{}"},
+		{Tag: "T2 new(T2)", Stmt: "_ = new({T2})", Subj: SubjT2, Codes: c2},
+		{Tag: "T2 var v T2", Stmt: "var $v {T2}; _ = $v", Subj: SubjT2, Codes: c3},
 		// silent forms
 		{Tag: "silent var p *T", Stmt: "var $v {PT}; _ = $v", Subj: SubjSilent, Core: true, PkgLevel: "var $g {PT}"},
 		{Tag: "silent var _ T", Stmt: "var _ {T}", Subj: SubjSilent, PkgLevel: "var _ {T}"},
@@ -158,9 +167,22 @@ func Expect(fam *Family, st *Site, encl EnclKind, file int, inU bool, m Mix) []s
 				return st.Codes
 			}
 			return nil
+		case SubjT2:
+			return st.Codes
+		case SubjT2Mut:
+			if m.Mut {
+				return nil
+			}
+			return st.Codes
 		}
 	case "CTOR":
-		if m.Ctor == 0 || inCtorOfT {
+		if m.Ctor == 0 {
+			return nil
+		}
+		if st.Subj == SubjT2 {
+			return st.Codes
+		}
+		if inCtorOfT {
 			return nil
 		}
 		_ = inCtorOfN
